@@ -513,7 +513,16 @@ def make_opt_replay(which, start_deg, stop_deg, step_deg):
         first = [k for k, c, _ in calls if c == best][0]
         got_k = int(round(field[0][1] / 1000.0)) if len(field) else None
         bad = len(field) != best or got_k != first or ('rt%0.1f' % (calls[first][2] / DEG_TO_RAD)) not in name
-        return bad, dict(counts=[c for _, c, _ in calls], returned_rotation_index=got_k, expected_index=first, name=name)
+        # the rotations that were tried: start, start + step, ... < stop (the requested window, nothing outside it)
+        exp_rots = []
+        r = start
+        while r < stop:
+            exp_rots.append(r)
+            r += step_deg * DEG_TO_RAD
+        tried = [rot for _, _, rot in calls]
+        window_ok = len(tried) == len(exp_rots) and all(abs(a - b) < 1e-12 for a, b in zip(tried, exp_rots))
+        return bad or not window_ok, dict(counts=[c for _, c, _ in calls], returned_rotation_index=got_k, expected_index=first, name=name,
+                                          tried_rotations_deg=[round(x / DEG_TO_RAD, 6) for x in tried], requested_window_deg=[start_deg, stop_deg, step_deg])
     return replay
 
 
@@ -629,7 +638,7 @@ def units(tier, seed):
     for W, H, sp in EXACT:
         us.append(Unit('lattice_exact_%gx%g' % (W, H), make_exact_fn(W, H, sp), make_exact_replay(W, H, sp), setup, F,
                        'lot %g x %g m at the origin, rotation 0, spacing each of the exact divisors %s (forked)' % (W, H, sp), AS))
-    sweeps = [(-90.0, 0.0, 15.0), (-30.0, 30.0, 7.5)] if tier == 'quick' else [(-90.0, 0.0, 15.0), (-30.0, 30.0, 7.5), (-90.0, 90.0, 15.0), (0.0, 10.0, 1.0), (-45.0, 45.0, 10.0)]
+    sweeps = [(-90.0, 0.0, 15.0), (-30.0, 30.0, 7.5), (0.0, 45.0, 15.0)] if tier == 'quick' else [(-90.0, 0.0, 15.0), (-30.0, 30.0, 7.5), (-90.0, 90.0, 15.0), (0.0, 10.0, 1.0), (-45.0, 45.0, 10.0)]
     for a, b, st in sweeps:
         for which in ('fr', 'wp'):
             us.append(Unit('sweep_%s_%g_%g_%g' % (which, a, b, st), make_opt_fn(which, a, b, st), make_opt_replay(which, a, b, st), setup, F2,
